@@ -148,8 +148,14 @@ pub struct Generator {
     queue: VecDeque<Op>,
     keys: Vec<Val>,
     vals: Vec<Val>,
-    /// percentage of top-level positions at which a `reopen` line is emitted (C06)
+    /// percentage of top-level positions at which a `reopen` line is emitted
     pub reopen_pct: u64,
+    /// emit one `reopen` (followed by selects and the final dump) when the case is about to end
+    pub final_reopen: bool,
+    final_reopen_done: bool,
+    /// C11: indexes created by the plan, in creation order, and the positions at which to remove one
+    idx_order: Vec<Val>,
+    idx_rm_at: Vec<usize>,
 }
 
 impl Generator {
@@ -181,6 +187,10 @@ impl Generator {
             keys: key_pool(),
             vals: val_pool(),
             reopen_pct: 0,
+            final_reopen: false,
+            final_reopen_done: false,
+            idx_order: vec![],
+            idx_rm_at: vec![],
         }
     }
 
@@ -232,6 +242,15 @@ impl Generator {
                     return Some(op);
                 }
                 if self.emitted >= self.target_ops {
+                    if self.final_reopen && !self.final_reopen_done {
+                        self.final_reopen_done = true;
+                        self.queue.push_back(Op::SelectIndexes);
+                        if let Some(k) = refm.indexes.iter().next().and_then(|k| Val::parse(k)) {
+                            let v = self.value();
+                            self.queue.push_back(Op::SearchIndex(k, v));
+                        }
+                        return Some(Op::Reopen);
+                    }
                     if !self.final_dump_done {
                         self.final_dump_done = true;
                         return Some(Op::Dump);
@@ -245,7 +264,30 @@ impl Generator {
                         Prop::C13 => 35,
                         _ => 0,
                     };
-                    if self.rng.pct(early_index) {
+                    if self.prop == Prop::C11 && self.rng.pct(70) {
+                        // 3-5 indexes, later several of them removed starting with a non-last one
+                        let n = self.rng.range(3, 5) as usize;
+                        let mut keys = self.keys.clone();
+                        while keys.len() > n {
+                            let i = self.rng.below(keys.len() as u64) as usize;
+                            keys.remove(i);
+                        }
+                        for _ in 0..keys.len() {
+                            let i = self.rng.below(keys.len() as u64) as usize;
+                            let j = self.rng.below(keys.len() as u64) as usize;
+                            keys.swap(i, j);
+                        }
+                        for k in &keys {
+                            self.queue.push_back(Op::InsertIndex(k.clone()));
+                        }
+                        self.idx_order = keys;
+                        let t1 = self.target_ops * self.rng.range(30, 60) as usize / 100 + 2;
+                        let t2 = t1 + self.rng.range(1, 5) as usize;
+                        self.idx_rm_at = vec![t1, t2];
+                        if self.rng.pct(40) {
+                            self.idx_rm_at.push(t2 + self.rng.range(1, 5) as usize);
+                        }
+                    } else if self.rng.pct(early_index) {
                         let k = self.pool_key();
                         self.queue.push_back(Op::InsertIndex(k));
                     }
@@ -253,6 +295,18 @@ impl Generator {
                 }
                 if self.prop == Prop::C08 && self.since_dump >= 10 {
                     return Some(Op::Dump);
+                }
+                if let Some(&t) = self.idx_rm_at.first()
+                    && self.emitted >= t
+                {
+                    self.idx_rm_at.remove(0);
+                    if !self.idx_order.is_empty() {
+                        // not the most recently created one while there is a choice
+                        let n = self.idx_order.len();
+                        let pos = if n >= 2 { self.rng.below(n as u64 - 1) as usize } else { 0 };
+                        let k = self.idx_order.remove(pos);
+                        return Some(Op::RemoveIndex(k));
+                    }
                 }
                 if self.reopen_pct > 0 && self.rng.pct(self.reopen_pct) {
                     return Some(Op::Reopen);
